@@ -6,13 +6,14 @@ import Qfx.Drv.Sched
 import Qfx.Drv.Store
 import Qfx.Drv.StoreMon
 import Qfx.Drv.Crash
+import Qfx.Drv.CrashMon
 namespace Qfx.Drv
 
 def families : List (String × Family) :=
   [ ("val", valFamily), ("val-mon", valMonFamily)
   , ("sched", schedFamily)
   , ("store", storeFamily), ("store-mon", storeMonFamily)
-  , ("crash", crashFamily)
+  , ("crash", crashFamily), ("crash-mon", crashMonFamily)
   ]
 
 end Qfx.Drv
